@@ -850,7 +850,7 @@ func pkcs7Reject(c *vf.Ctx) {
 
 // ================================================================ GPP
 
-var runeAlpha = []string{"a", "Z", "0", " ", "\x00", "é", "ß", "Σ", "я", "€", "￿", "\U00010428", "\U0001F600"}
+var runeAlpha = []string{"a", "Z", "0", " ", "\x00", "é", "ß", "Σ", "я", "€", "￿", "\U00010428", "\U0001F600", "\ufffd", "\ufeff"}
 
 func gppAll(c *vf.Ctx) {
 	pws := enum.Strings(runeAlpha, c.Pick(3, 4))
